@@ -59,15 +59,17 @@ def make_label(ctx, rng, name):
     return path, rows
 
 
-def classify(compress, code):
-    """(compressed stream, picotool's documented storage choice, whether the code fits the cartridge). "Fits" does not
-    depend on the choice: the text fits as it is, or its compressed form with the 8-byte header does (theorem
-    C04.codeFits_iff: this is exactly when the form picotool chooses fits). The form actually used is observed from the
-    written file (`observed_compressed`); `compressed` here is only the fallback for the rare text that itself begins
-    with the header's magic."""
+def classify(compress, code, version):
+    """(compressed stream, picotool's documented storage choice, whether the code fits the cartridge). "Fits" is stated from the
+    format and does not depend on the choice: the uncompressed form can hold the code (NUL-terminated text of at most 0x3d00 bytes that
+    does not read as the compressed header — which only readers of version >= 1 carts look for), or the compressed form can (carts of
+    version >= 1: 8-byte header with a 16-bit text length, plus the stream, within 0x3d00 bytes). Theorem C04.codeFits_iff: that is
+    exactly when the form picotool chooses fits. The form actually used is observed from the written file (`observed_compressed`);
+    `compressed` here is only the fallback for the rare text that itself begins with the header's magic."""
     comp = bytes(compress.compress_code(code)) if code else b''
-    compressed = len(comp) + 8 < len(code)
-    fits = len(code) <= AREA or (8 + len(comp) <= AREA and len(code) < 65536)
+    raw_ok = b'\x00' not in code and (version == 0 or code != b':c:')
+    compressed = version != 0 and (len(comp) + 8 < len(code) or not raw_ok)
+    fits = (raw_ok and len(code) <= AREA) or (version != 0 and 8 + len(comp) <= AREA and len(code) < 65536)
     return comp, compressed, fits
 
 
@@ -91,7 +93,7 @@ def check_cart(ctx, res, code, regs, version, label, tag, batch, label_rows_defa
     except Exception:
         return
     code1 = b''.join(g.lua.to_lines())
-    comp, compressed, fits = classify(compress, code1)
+    comp, compressed, fits = classify(compress, code1, version)
     res.evaluations += 1
     res.nontrivial.add((code1, version, bool(label)))
     res.count(('compressed' if compressed else 'raw') + ('' if fits else '-toolarge'))
@@ -143,17 +145,12 @@ def check_cart(ctx, res, code, regs, version, label, tag, batch, label_rows_defa
     if probs:
         k2 = key
         if probs == ['code']:
-            if compressed and version == 0:
-                k2 = 'C04:version0-compressed'
-            elif compressed and (code1.endswith(compress.PICO8_FUTURE_CODE1) or code1.endswith(compress.PICO8_FUTURE_CODE2)):
+            if compressed and (code1.endswith(compress.PICO8_FUTURE_CODE1) or code1.endswith(compress.PICO8_FUTURE_CODE2)):
                 k2 = 'C04:text-ends-with-compat-suffix'
-            elif not compressed and b'\x00' in code1:
-                k2 = 'C04:raw-code-with-nul'
-            elif not compressed and code1 == b':c:':
-                k2 = 'C04:raw-code-is-:c:'
         res.fail(k2, '.p8.png round trip does not preserve: %s (stored %s)' % (','.join(probs), 'compressed' if compressed else 'raw'), inp)
     # correspondence
-    batch.append(('code2bytes ' + hx(code1), 'ok ' + hx(bytes(p8png.get_bytes_from_code(code1))), {'op': 'code2bytes', 'code': hx(code1)[:60]}))
+    batch.append(('code2bytes %d %s' % (version, hx(code1)), 'ok ' + hx(bytes(p8png.get_bytes_from_code(code1, version))),
+                  {'op': 'code2bytes', 'code': hx(code1)[:60], 'version': version}))
     cl, cc, cs = p8png.get_code_from_bytes(list(pico[0x4300:0x8000]), version)
     batch.append(('bytes2code %d %s' % (version, hx(pico[0x4300:0x8000])), 'ok %d %s %s' % (cl, hx(cc), 'n' if cs is None else cs),
                   {'op': 'bytes2code', 'code': hx(code1)[:60], 'version': version}))
@@ -284,11 +281,12 @@ def run(ctx, res):
         if rng.random() < 0.6:
             code = code * rng.choice([2, 3, 6])      # repetitive code is stored compressed
         check_cart(ctx, res, code, regs, rng.randrange(1, 256), lab if rng.random() < 0.4 else None, 'cart', batch, blank)
-    # known-finding families (kept in the run so that they stay visible)
+    # code the uncompressed form cannot hold (NUL, the bare magic), at every version kind; version 0 carts (never compressed; NUL refused)
     z = {nm: bytes(sz) for nm, sz in U.REGION_SIZES}
-    check_cart(ctx, res, b'x=1 y=1 x=1 y=1 x=1 y=1 x=1 y=1\n', z, 0, None, 'cart', batch, blank)
-    check_cart(ctx, res, b'--\x00\nx=1', z, 8, None, 'cart', batch, blank)
-    check_cart(ctx, res, b':c:', z, 8, None, 'cart', batch, blank)
+    for v_ in (0, 1, 8, 255):
+        for c_ in (b'x=1 y=1 x=1 y=1 x=1 y=1 x=1 y=1\n', b'--\x00\nx=1', b':c:', b':c:\x00', b'--:c:\n', b':c:x=1', b'\x00', b'-- a\x00b\x00',
+                   b'--' + incompressible(rng, 40) + b'\x00', b'x=":c:"', b':c:\n'):
+            check_cart(ctx, res, c_, z, v_, None, 'cart', batch, blank)
     # .p8 -> .p8.png -> .p8 through the file layer (existing destination keeps its label picture)
     from pico8.game import file as gfile
     for i in range(ctx.budget(3, 30)):
@@ -320,11 +318,8 @@ def run(ctx, res):
             k2 = 'C04:convert:' + hx(code)[:40]
             if r1 == r3:
                 # the same root causes as the known findings of the cart-level check, seen through the file layer
-                stored_compressed = len(compress.compress_code(c1)) + 8 < len(c1)
-                if not stored_compressed and b'\x00' in c1 and c3 == c1.split(b'\x00')[0] + (b'\n' if not c1.split(b'\x00')[0].endswith(b'\n') else b''):
-                    k2 = 'C04:raw-code-with-nul'
-                elif stored_compressed and (c1.endswith(compress.PICO8_FUTURE_CODE1) or c1.endswith(compress.PICO8_FUTURE_CODE2)
-                                            or c1.rstrip(b'\n').endswith(compress.PICO8_FUTURE_CODE1) or c1.rstrip(b'\n').endswith(compress.PICO8_FUTURE_CODE2)):
+                stored_compressed = g1.version != 0 and (len(compress.compress_code(c1)) + 8 < len(c1) or b'\x00' in c1 or c1 == b':c:')
+                if stored_compressed and (c1.endswith(compress.PICO8_FUTURE_CODE1) or c1.endswith(compress.PICO8_FUTURE_CODE2)):
                     k2 = 'C04:text-ends-with-compat-suffix'
             res.fail(k2, '.p8 -> .p8.png -> .p8 conversion changes code or data regions', {'code': hx(code)})
         if i % 2:
